@@ -12,7 +12,7 @@ for id in "${ids[@]}"; do
   prop=$(python3 -c "import json;print(json.load(open('$d/meta.json'))['property'])")
   checks=$(python3 -c "import json;m=json.load(open('$d/meta.json'));print(' '.join(m.get('checks',[m['property']])))")
   tier=$(python3 -c "import json;m=json.load(open('$d/meta.json'));print(m.get('tier','quick'))")
-  M=/tmp/seedrun.$$
+  M=/tmp/seedrun.$$.$RANDOM
   rm -rf $M && mkdir -p $M && cp -r /repo $M/repo
   if ! git -C $M/repo apply $PWD/$d/patch.diff; then echo "$id: patch does not apply"; rm -rf $M; continue; fi
   if ! (cd $M/repo && go build ./... && go build -tags verif ./...) 2>/dev/null; then echo "$id: does not build"; rm -rf $M; continue; fi
@@ -26,6 +26,6 @@ for id in "${ids[@]}"; do
     echo "$out" | grep -A1 "^VIOLATION" | head -4 | cut -c1-220
     row="$row $res;"
   done
-  echo "$row" >> seeded/MATRIX.rows
+  echo "$row" >> ${ROWS:-seeded/MATRIX.rows}
   rm -rf $M out/harness-alt
 done
